@@ -11,7 +11,8 @@
 (***************************************************************************)
 EXTENDS Window, Sequences, Json, TLCExt
 
-CONSTANTS WinLens, MaxTick, CompleteEvery
+CONSTANTS WinLens, MaxTick, CompleteEvery,
+          FromTicks    \* window starts explored (all of Ticks in the thorough tier)
 VARIABLES phase, di, tzr, tzw, from, to, leak, miss
 vars == <<phase, di, tzr, tzw, from, to, leak, miss>>
 
@@ -23,7 +24,7 @@ Init == phase = 0 /\ di = 1 /\ tzr = 0 /\ tzw = 0 /\ from = 0 /\ to = 0 /\ leak 
 \* a descriptor, the zones (only where they matter) and the start of the window
 PickDesc ==
     /\ phase = 0
-    /\ \E i \in 1..Len(DescSeq), r \in Zones, w \in Zones, f \in Ticks :
+    /\ \E i \in 1..Len(DescSeq), r \in Zones, w \in Zones, f \in FromTicks :
         /\ UsesReaderZone(DescSeq[i]) \/ r = 0
         /\ DescSeq[i].wrule = "local" \/ w = 0
         /\ phase' = 1 /\ di' = i /\ tzr' = r /\ tzw' = w /\ from' = f /\ to' = f
